@@ -67,6 +67,8 @@ def _build(v, cls, ctx):
     if issubclass(cls, FixedTimezone):
         return FixedTimezone(v.f["_offset"], v.f.get("_name"))
     if issubclass(cls, zoneinfo.ZoneInfo):
+        if v.f.get("native") is not None:
+            return v.f["native"]
         if "concrete_key" in v.f:
             return cls(v.f["concrete_key"])
         if isinstance(v.key, str):
